@@ -24,8 +24,13 @@ pub enum Allow {
     /// one descriptor of unknown credential *type* naming an id nobody has: whatever the type is
     /// taken to mean, no credential is named
     UnknownTypeUnknownId,
+    /// one descriptor whose id is the base64url TEXT of the own credential's id, as bytes (what an RP
+    /// library that forgot to decode sends): a byte string that names no credential
+    TextOfOwn,
+    /// the same as hex text
+    HexOfOwn,
 }
-const ALLOWS: [Allow; 7] = [Allow::Absent, Allow::Empty, Allow::Own, Allow::OwnAndUnknown, Allow::Unknown, Allow::OtherRp, Allow::UnknownTypeUnknownId];
+const ALLOWS: [Allow; 9] = [Allow::Absent, Allow::Empty, Allow::Own, Allow::OwnAndUnknown, Allow::Unknown, Allow::OtherRp, Allow::UnknownTypeUnknownId, Allow::TextOfOwn, Allow::HexOfOwn];
 
 #[derive(Clone, Debug, PartialEq, Serialize, Deserialize)]
 pub enum Act {
@@ -102,6 +107,8 @@ fn apply(store: &Shared<RefStore>, act: &Act) -> (Vec<(String, String)>, String)
                 Allow::Unknown => Some(vec![unknown.clone()]),
                 Allow::OtherRp => Some(vec![other.as_ref().map(|r| r.id.clone()).unwrap_or(unknown.clone())]),
                 Allow::UnknownTypeUnknownId => Some(vec![unknown.clone()]),
+                Allow::TextOfOwn => Some(vec![crate::oracles::b64::url_nopad(&own.as_ref().map(|r| r.id.clone()).unwrap_or(unknown.clone())).into_bytes()]),
+                Allow::HexOfOwn => Some(vec![hex(&own.as_ref().map(|r| r.id.clone()).unwrap_or(unknown.clone())).into_bytes()]),
             };
             let eligible: Vec<&Rec> = before.iter().filter(|r| r.rp == rp_eff && list.as_ref().map_or(true, |l| l.is_empty() || l.contains(&r.id))).collect();
             let ch = challenges()[*challenge as usize % challenges().len()].clone();
@@ -314,7 +321,7 @@ pub fn run(ctx: &Ctx) -> Result<Run, String> {
     }
     let mut run = Run::from_stats(
         "model_checking",
-        "explicit-state BFS over histories: register(rp in 2, user in 2) and authenticate(origin/RP in 4 incl. a sub-domain origin of the same RP and an RP without credentials, allow list in {absent, empty, [own], [unknown, own], [unknown], [credential of another RP], [unknown id with an unknown credential type]}, userVerification in {required, preferred, discouraged with and without the user verifying anyway}, client-data mode in 3) plus 10 challenges on two base assertions, from the empty and two seeded stores, on a real Client over the contract store; every assertion is verified by an independent relying party (ECDSA verify under the key derived from the stored scalar, client data, rpIdHash, flags, user handle). Plus the instance differential: the complete tree of histories to depth 3 (thorough 4) over {assertion with the seeded / no / an unknown / the first created credential, registration rk on/off, getInfo, a registration and an assertion dropped while the user step is pending} on ONE long-lived Authenticator against fresh Authenticators per operation, on the contract store, Arc<Mutex<MemoryStore>> and Arc<Mutex<Option<Passkey>>> (results and final store must agree), and the same for ONE long-lived Client against fresh Clients over {registration rk/credProps on two origins, authentication with the seeded / no / an unknown / the first created credential, with and without prf, a request refused for its RP id}. Extra client data under every identifier-like literal of the client and types sources and the member names of related specifications (payment, topOrigin, tokenBinding, ...), and a caller-supplied ClientData whose extra data differs at every call: type, challenge, origin and signature as always. State shared between instances: on one fresh thread, three authenticators whose stores hold the SAME credential id with three different keys (two RPs) assert in turn, twice, and one key handle is U2F-registered, used, re-registered and used again; every signature must verify under the key its own store holds. A store whose items spell their rp_id differently from the RP ID they are found under (empty, upper case, trailing dot, a URL, another host): rpIdHash is that of the request's RP ID and the signature verifies. Repetition histories (one of six granted / denied / dropped ceremonies 8, 9, 17, 33 times in a row on one authenticator, then each as a probe). Signature shapes: for 3 fixed stored keys x counter {absent, 5} the smallest client-data hash whose RFC 6979 signature falls into each DER shape class (r padded / not / shorter than 32 bytes x s full / shorter) is searched with the harness's own signer and asserted - success, byte-equality with the predicted signature and verification demanded. States are deduplicated on (RP, user handle, counter) per record in creation order; every transition is a distinct non-trivial real ceremony",
+        "explicit-state BFS over histories: register(rp in 2, user in 2) and authenticate(origin/RP in 4 incl. a sub-domain origin of the same RP and an RP without credentials, allow list in {absent, empty, [own], [unknown, own], [unknown], [credential of another RP], [unknown id with an unknown credential type], [the base64url text of the own id as bytes], [its hex text]}, userVerification in {required, preferred, discouraged with and without the user verifying anyway}, client-data mode in 3) plus 10 challenges on two base assertions, from the empty and two seeded stores, on a real Client over the contract store; every assertion is verified by an independent relying party (ECDSA verify under the key derived from the stored scalar, client data, rpIdHash, flags, user handle). Plus the instance differential: the complete tree of histories to depth 3 (thorough 4) over {assertion with the seeded / no / an unknown / the first created credential, registration rk on/off, getInfo, a registration and an assertion dropped while the user step is pending} on ONE long-lived Authenticator against fresh Authenticators per operation, on the contract store, Arc<Mutex<MemoryStore>> and Arc<Mutex<Option<Passkey>>> (results and final store must agree), and the same for ONE long-lived Client against fresh Clients over {registration rk/credProps on two origins, authentication with the seeded / no / an unknown / the first created credential, with and without prf, a request refused for its RP id}. Extra client data under every identifier-like literal of the client and types sources and the member names of related specifications (payment, topOrigin, tokenBinding, ...), and a caller-supplied ClientData whose extra data differs at every call: type, challenge, origin and signature as always. State shared between instances: on one fresh thread, three authenticators whose stores hold the SAME credential id with three different keys (two RPs) assert in turn, twice, and one key handle is U2F-registered, used, re-registered and used again; every signature must verify under the key its own store holds. A store whose items spell their rp_id differently from the RP ID they are found under (empty, upper case, trailing dot, a URL, another host): rpIdHash is that of the request's RP ID and the signature verifies. Repetition histories (one of six granted / denied / dropped ceremonies 8, 9, 17, 33 times in a row on one authenticator, then each as a probe). Signature shapes: for 3 fixed stored keys x counter {absent, 5} the smallest client-data hash whose RFC 6979 signature falls into each DER shape class (r padded / not / shorter than 32 bytes x s full / shorter) is searched with the harness's own signer and asserted - success, byte-equality with the predicted signature and verification demanded. States are deduplicated on (RP, user handle, counter) per record in creation order; every transition is a distinct non-trivial real ceremony",
         true,
         g.stats,
     );
